@@ -1,1 +1,171 @@
-//! C13: independent base64 (reference model; to be written)
+//! Independent base64 encoder / decoder (RFC 4648), used by C13 (standard alphabet, padded) and by
+//! `refmodel::jwt` (URL-safe alphabet, unpadded).  Table-free on purpose: every symbol is computed from
+//! the definition of the alphabet, nothing is shared with the `base64` crate the subject uses.
+
+#[derive(Clone, Copy, PartialEq, Eq, Debug)]
+pub enum Alphabet { Standard, UrlSafe }
+
+#[derive(Clone, Copy, PartialEq, Eq, Debug)]
+pub enum Padding {
+    /// `=` padding to a multiple of four is mandatory (RFC 4648 section 4 as used by RFC 7617)
+    Required,
+    /// `=` must not occur (RFC 7515 base64url)
+    Forbidden,
+}
+
+#[derive(Clone, Copy, PartialEq, Eq, Debug)]
+pub enum B64Error {
+    /// a byte outside the alphabet (position)
+    Symbol(usize),
+    /// a length that no encoder produces (`4k+1` symbols, or an unpadded text where padding is required)
+    Length,
+    /// padding where none is allowed, in the wrong place or of the wrong amount
+    Padding,
+    /// the unused low bits of the last symbol are not zero: the text decodes, but it is not *the* encoding
+    /// of any byte string (RFC 4648 section 3.5)
+    TrailingBits,
+}
+
+fn symbol(alphabet: Alphabet, v: u8) -> u8 {
+    match v {
+        0..=25 => b'A' + v,
+        26..=51 => b'a' + (v - 26),
+        52..=61 => b'0' + (v - 52),
+        62 => match alphabet { Alphabet::Standard => b'+', Alphabet::UrlSafe => b'-' },
+        _ => match alphabet { Alphabet::Standard => b'/', Alphabet::UrlSafe => b'_' },
+    }
+}
+
+fn value(alphabet: Alphabet, c: u8) -> Option<u8> {
+    Some(match c {
+        b'A'..=b'Z' => c - b'A',
+        b'a'..=b'z' => c - b'a' + 26,
+        b'0'..=b'9' => c - b'0' + 52,
+        b'+' if alphabet == Alphabet::Standard => 62,
+        b'/' if alphabet == Alphabet::Standard => 63,
+        b'-' if alphabet == Alphabet::UrlSafe => 62,
+        b'_' if alphabet == Alphabet::UrlSafe => 63,
+        _ => return None,
+    })
+}
+
+pub fn encode(alphabet: Alphabet, pad: bool, data: &[u8]) -> String {
+    let mut out = Vec::with_capacity(data.len().div_ceil(3) * 4);
+    for chunk in data.chunks(3) {
+        let b0 = chunk[0];
+        let b1 = *chunk.get(1).unwrap_or(&0);
+        let b2 = *chunk.get(2).unwrap_or(&0);
+        out.push(symbol(alphabet, b0 >> 2));
+        out.push(symbol(alphabet, ((b0 & 0b11) << 4) | (b1 >> 4)));
+        if chunk.len() > 1 { out.push(symbol(alphabet, ((b1 & 0b1111) << 2) | (b2 >> 6))) } else if pad { out.push(b'=') }
+        if chunk.len() > 2 { out.push(symbol(alphabet, b2 & 0b11_1111)) } else if pad { out.push(b'=') }
+    }
+    String::from_utf8(out).unwrap()
+}
+
+/// Strict decoder: accepts exactly the texts `encode(alphabet, padding == Required, ..)` can produce.
+pub fn decode(alphabet: Alphabet, padding: Padding, text: &[u8]) -> Result<Vec<u8>, B64Error> {
+    decode_impl(alphabet, padding, text, true)
+}
+
+/// Like `decode` but tolerating non-zero unused bits in the last symbol (used to recognise
+/// "decodes to the right bytes, but is not the canonical text").
+pub fn decode_lenient_bits(alphabet: Alphabet, padding: Padding, text: &[u8]) -> Result<Vec<u8>, B64Error> {
+    decode_impl(alphabet, padding, text, false)
+}
+
+fn decode_impl(alphabet: Alphabet, padding: Padding, text: &[u8], strict_bits: bool) -> Result<Vec<u8>, B64Error> {
+    // split off the padding
+    let first_pad = text.iter().position(|c| *c == b'=');
+    let (body, pads) = match first_pad { Some(i) => (&text[..i], &text[i..]), None => (text, &text[..0]) };
+    if pads.iter().any(|c| *c != b'=') {
+        // something after the first `=` that is not `=`
+        return Err(B64Error::Padding)
+    }
+    match padding {
+        Padding::Forbidden => if !pads.is_empty() { return Err(B64Error::Padding) },
+        Padding::Required => {
+            if pads.len() > 2 { return Err(B64Error::Padding) }
+            if (body.len() + pads.len()) % 4 != 0 {
+                return Err(if pads.is_empty() { B64Error::Length } else { B64Error::Padding })
+            }
+        }
+    }
+    if let Some(i) = body.iter().position(|c| value(alphabet, *c).is_none()) { return Err(B64Error::Symbol(i)) }
+    if body.len() % 4 == 1 { return Err(B64Error::Length) }
+    if padding == Padding::Required && !pads.is_empty() && body.len() % 4 < 2 { return Err(B64Error::Padding) }
+
+    let mut out = Vec::with_capacity(body.len() * 3 / 4);
+    for quad in body.chunks(4) {
+        let v: Vec<u8> = quad.iter().map(|c| value(alphabet, *c).unwrap()).collect();
+        match v.len() {
+            4 => { out.push((v[0] << 2) | (v[1] >> 4)); out.push((v[1] << 4) | (v[2] >> 2)); out.push((v[2] << 6) | v[3]); }
+            3 => {
+                out.push((v[0] << 2) | (v[1] >> 4)); out.push((v[1] << 4) | (v[2] >> 2));
+                if strict_bits && v[2] & 0b11 != 0 { return Err(B64Error::TrailingBits) }
+            }
+            2 => {
+                out.push((v[0] << 2) | (v[1] >> 4));
+                if strict_bits && v[1] & 0b1111 != 0 { return Err(B64Error::TrailingBits) }
+            }
+            _ => unreachable!(),
+        }
+    }
+    Ok(out)
+}
+
+pub fn std_encode(data: &[u8]) -> String { encode(Alphabet::Standard, true, data) }
+pub fn std_decode(text: &[u8]) -> Result<Vec<u8>, B64Error> { decode(Alphabet::Standard, Padding::Required, text) }
+pub fn url_encode(data: &[u8]) -> String { encode(Alphabet::UrlSafe, false, data) }
+pub fn url_decode(text: &[u8]) -> Result<Vec<u8>, B64Error> { decode(Alphabet::UrlSafe, Padding::Forbidden, text) }
+
+#[cfg(test)]
+mod t {
+    use super::*;
+    #[test] fn rfc4648_vectors() {
+        for (plain, enc) in [("", ""), ("f", "Zg=="), ("fo", "Zm8="), ("foo", "Zm9v"), ("foob", "Zm9vYg=="), ("fooba", "Zm9vYmE="), ("foobar", "Zm9vYmFy")] {
+            assert_eq!(std_encode(plain.as_bytes()), enc);
+            assert_eq!(std_decode(enc.as_bytes()).unwrap(), plain.as_bytes());
+            assert_eq!(url_encode(plain.as_bytes()), enc.trim_end_matches('='));
+            assert_eq!(url_decode(enc.trim_end_matches('=').as_bytes()).unwrap(), plain.as_bytes());
+        }
+        assert_eq!(std_encode(&[0xfb, 0xff, 0xbf]), "+/+/");
+        assert_eq!(url_encode(&[0xfb, 0xff, 0xbf]), "-_-_");
+        assert_eq!(std_decode(b"-_-_"), Err(B64Error::Symbol(0)));
+        assert_eq!(url_decode(b"+/+/"), Err(B64Error::Symbol(0)));
+    }
+    #[test] fn strictness() {
+        assert_eq!(std_decode(b"Zg"), Err(B64Error::Length));
+        assert_eq!(std_decode(b"Zg="), Err(B64Error::Padding));
+        assert_eq!(std_decode(b"Zg==="), Err(B64Error::Padding));
+        assert_eq!(std_decode(b"Zm9v===="), Err(B64Error::Padding));
+        assert_eq!(std_decode(b"Zm9v="), Err(B64Error::Padding));
+        assert_eq!(std_decode(b"Z==="), Err(B64Error::Padding));
+        assert_eq!(std_decode(b"Zg=a"), Err(B64Error::Padding));
+        assert_eq!(std_decode(b"Zh=="), Err(B64Error::TrailingBits));
+        assert_eq!(decode_lenient_bits(Alphabet::Standard, Padding::Required, b"Zh==").unwrap(), b"f");
+        assert_eq!(std_decode(b"Zm9="), Err(B64Error::TrailingBits));
+        assert_eq!(std_decode(b"Zm 9"), Err(B64Error::Symbol(2)));
+        assert_eq!(url_decode(b"Zg=="), Err(B64Error::Padding));
+        assert_eq!(url_decode(b"Z"), Err(B64Error::Length));
+        assert_eq!(url_decode(b"Zh"), Err(B64Error::TrailingBits));
+    }
+    /// agreement with the `base64` crate (the subject's dependency) on every string of length <= 3 over a
+    /// small byte alphabet, and on every text of length <= 4 over a small symbol alphabet: this is a test of
+    /// the reference, not part of any check
+    #[test] fn cross_agreement() {
+        use base64::engine::{general_purpose::{STANDARD, URL_SAFE_NO_PAD}, Engine as _};
+        let bytes = [0u8, b'a', b':', 0x3e, 0x3f, 0xff, 0xc3];
+        let alpha: Vec<&[u8]> = bytes.iter().map(std::slice::from_ref).collect();
+        for s in crate::core::strings_over(&alpha, 4) {
+            assert_eq!(std_encode(&s), STANDARD.encode(&s));
+            assert_eq!(url_encode(&s), URL_SAFE_NO_PAD.encode(&s));
+        }
+        let syms = [b'A', b'Q', b'g', b'/', b'_', b'=', b' ', b'+', b'-', b'9'];
+        let alpha: Vec<&[u8]> = syms.iter().map(std::slice::from_ref).collect();
+        for s in crate::core::strings_over(&alpha, 5) {
+            assert_eq!(std_decode(&s).ok(), STANDARD.decode(&s).ok(), "std {:?}", String::from_utf8_lossy(&s));
+            assert_eq!(url_decode(&s).ok(), URL_SAFE_NO_PAD.decode(&s).ok(), "url {:?}", String::from_utf8_lossy(&s));
+        }
+    }
+}
